@@ -5,6 +5,7 @@ package main
 import (
 	"go/token"
 	"go/types"
+	"strings"
 
 	"golang.org/x/tools/go/ssa"
 )
@@ -42,6 +43,7 @@ func (s lockState) clone() lockState {
 	return o
 }
 
+// Shared (RLock) holds are recorded under key+"#r": they license reads only.
 func isMutexMethod(p *Prog, c *ssa.CallCommon) (key string, lock, unlock bool) {
 	obj := calleeObj(c)
 	if obj == nil || obj.Pkg() == nil || obj.Pkg().Path() != "sync" {
@@ -60,7 +62,29 @@ func isMutexMethod(p *Prog, c *ssa.CallCommon) (key string, lock, unlock bool) {
 		return
 	}
 	key = p.memKey(c.Args[0])
+	if key != "" && (obj.Name() == "RLock" || obj.Name() == "RUnlock") {
+		key += "#r"
+	}
 	return
+}
+
+// lockOK: does the must-hold set license an access of the given kind under lock key?
+// A write needs the exclusive lock; a read is also fine under the shared (RLock) hold.
+func lockOK(st lockState, key string, write bool) bool {
+	if st[key] {
+		return true
+	}
+	return !write && st[key+"#r"]
+}
+
+// anyExclusive: is any exclusive lock held?
+func anyExclusive(st lockState) bool {
+	for k := range st {
+		if !strings.HasSuffix(k, "#r") {
+			return true
+		}
+	}
+	return false
 }
 
 // heldLocks computes, for every instruction of fn, the set of lock keys that are held
